@@ -25,13 +25,16 @@ Inductive site_result : Type :=
 | Updated (accrued paid tracker record : Z).
 
 (* the part every float site shares: CalculationOfRewards on the selected operands, carry, add *)
-Definition float_site (pow : Z -> Z -> Z) (now bt principal rate : Z) (tracker : option Z) (record : Z)
+(* [calc now bt principal rate] is CalculationOfRewards; the [_with] forms take it as an argument so
+   that the correspondence run can execute them with the shift-based equal of Model/AccrualFast.v *)
+Definition float_site_with (calc : Z -> Z -> Z -> Z -> outcome Z) (now bt principal rate : Z) (tracker : option Z) (record : Z)
   : outcome site_result :=
-  match calculation_of_rewards pow now bt principal rate with
+  match calc now bt principal rate with
   | Ok x => let '(p, t') := site_carry tracker x in Ok (Updated x p t' (record + p))
   | Err c => Err c
   | Panic => Panic
   end.
+Definition float_site (pow : Z -> Z -> Z) := float_site_with (calculation_of_rewards pow).
 
 (* ---------------- CalculateVaultInterest ---------------- *)
 Record vault_site := mkVS {
@@ -46,20 +49,22 @@ Record vault_site := mkVS {
   vs_intacc : Z }.           (* Vault.InterestAccumulated *)
 
 (* Err 3 = ErrorPairDoesNotExist *)
-Definition vault_interest (pow : Z -> Z -> Z) (now : Z) (v : vault_site) : outcome site_result :=
+Definition vault_interest_with (calc : Z -> Z -> Z -> Z -> outcome Z) (now : Z) (v : vault_site) : outcome site_result :=
   if negb (vs_app_ok v) then Ok Untouched
   else if negb (vs_pair_found v) then Err 3
   else if (vs_fee v =? 0) || vs_stable_mint v then Ok Untouched
   else
     let bt := if vs_bh v =? 0 then vs_pair_bt v else vs_bt v in
-    float_site pow now bt (vs_debt v) (vs_fee v) (vs_tracker v) (vs_intacc v).
+    float_site_with calc now bt (vs_debt v) (vs_fee v) (vs_tracker v) (vs_intacc v).
+Definition vault_interest (pow : Z -> Z -> Z) := vault_interest_with (calculation_of_rewards pow).
 
 (* VaultIterateRewards, one vault: principal = AmountOut (NOT AmountOut + InterestAccumulated),
    rate and time base are the arguments collectorLsr / collectorBt; an error ends the loop *)
-Definition vault_iterate_one (pow : Z -> Z -> Z) (now lsr coll_bt vault_bh vault_bt amount_out : Z)
+Definition vault_iterate_one_with (calc : Z -> Z -> Z -> Z -> outcome Z) (now lsr coll_bt vault_bh vault_bt amount_out : Z)
   (tracker : option Z) (intacc : Z) : outcome site_result :=
   let bt := if vault_bh =? 0 then coll_bt else vault_bt in
-  float_site pow now bt amount_out lsr tracker intacc.
+  float_site_with calc now bt amount_out lsr tracker intacc.
+Definition vault_iterate_one (pow : Z -> Z -> Z) := vault_iterate_one_with (calculation_of_rewards pow).
 
 (* ---------------- CalculateLockerRewards ---------------- *)
 Record locker_site := mkLS {
@@ -82,13 +87,13 @@ Inductive locker_result : Type :=
 | LUntouched
 | LUpdated (accrued paid tracker net returns netfee : Z).
 
-Definition locker_rewards (pow : Z -> Z -> Z) (now : Z) (l : locker_site) : outcome locker_result :=
+Definition locker_rewards_with (calc : Z -> Z -> Z -> Z -> outcome Z) (now : Z) (l : locker_site) : outcome locker_result :=
   if negb (ls_reward_ok l) then Ok LUntouched
   else if negb (ls_coll_found l) then Err 4
   else if ls_lsr l =? 0 then Ok LUntouched
   else
     let bt := if ls_bh l =? 0 then ls_coll_bt l else ls_bt l in
-    match calculation_of_rewards pow now bt (ls_balance l) (ls_lsr l) with
+    match calc now bt (ls_balance l) (ls_lsr l) with
     | Err c => Err c
     | Panic => Panic
     | Ok x =>
@@ -103,6 +108,7 @@ Definition locker_rewards (pow : Z -> Z -> Z) (now : Z) (l : locker_site) : outc
           end
         else Ok (LUpdated x 0 t' (ls_net l) (ls_returns l) (tracker_val (ls_netfee l)))
     end.
+Definition locker_rewards (pow : Z -> Z -> Z) := locker_rewards_with (calculation_of_rewards pow).
 
 (* ---------------- IterateLends: the reward and its carry ---------------- *)
 (* lendAPR and the lend record's (AmountIn, LastInteractionTime, GlobalIndex); the error of
@@ -134,6 +140,21 @@ Definition saving_rate (avg u rf : Z) : option Z := lend_apr avg u rf.
 (* GetReserveRate: averageBorrowRate - savingRate *)
 Definition reserve_rate (avg u rf : Z) : option Z :=
   obindr (saving_rate avg u rf) (fun s => dsub_c avg s).
+
+(* the rates IterateBorrow reads: GetReserveRate (-> GetAverageBorrowRate -> UpdateAPR: lend APR,
+   both borrow APRs and the utilisation are all computed, a panic in any of them propagates;
+   GetSavingRate) and then GetBorrowAPRByAssetID(IsStableBorrow).
+   Ok (apr, reserve rate, average borrow rate, utilisation) *)
+Definition borrow_rates (p : rate_params) (mod_bal borrowed sborrowed : Z) (stable : bool) : outcome (Z * Z * Z * Z) :=
+  obindo (utilisation mod_bal (borrowed + sborrowed)) (fun u =>
+  obindo (lend_apr_p p u) (fun _ =>
+  obindo (borrow_apr p false u) (fun bapr =>
+  obindo (borrow_apr p true u) (fun sapr =>
+  match average_borrow_rate bapr sapr borrowed sborrowed with
+  | Panic => Panic | Err c => Err c
+  | Ok avg => obindo (reserve_rate avg u (rp_rf p)) (fun rr =>
+              obindo (borrow_apr p stable u) (fun apr => Ok (apr, rr, avg, u)))
+  end)))).
 
 Record borrow_site := mkBS {
   bs_stable : bool;          (* BorrowAsset.IsStableBorrow *)
